@@ -44,10 +44,11 @@ const (
 	OpSelect // (select arr idx) over named array var; args[0]=array term
 	OpStore  // (store arr idx val)
 	OpArrVar // array variable (Array BV64 BV64)
+	OpLut    // args[0] = index; Lut = constant table; value = Lut[min(index, len-1)] (printed to SMT as an ite chain)
 )
 
 var opNames = [...]string{"const", "var", "not", "and", "or", "ite", "=", "bvadd", "bvsub", "bvmul", "bvudiv", "bvsdiv", "bvurem", "bvsrem",
-	"bvand", "bvor", "bvxor", "bvshl", "bvlshr", "bvashr", "bvult", "bvslt", "bvule", "bvsle", "zext", "sext", "extract", "bvnot", "bvneg", "select", "store", "arrvar"}
+	"bvand", "bvor", "bvxor", "bvshl", "bvlshr", "bvashr", "bvult", "bvslt", "bvule", "bvsle", "zext", "sext", "extract", "bvnot", "bvneg", "select", "store", "arrvar", "lut"}
 
 // Term sort: W==0 means Bool; W in 1..64 a bit-vector; W==255 an array BV64->BV64.
 type Term struct {
@@ -56,6 +57,7 @@ type Term struct {
 	Args []*Term
 	Val  uint64 // const value (masked); for Bool 0/1
 	Name string // var
+	Lut  []uint64 // OpLut: the table
 	id   int
 	nv   uint8 // number of distinct scalar vars: 0,1, or 2 (= many / arrays)
 	v0   *Term // the single var if nv==1
@@ -109,7 +111,7 @@ func (tt *TermTable) mk(op Op, w uint8, val uint64, name string, args ...*Term) 
 	sb.WriteByte(w)
 	if op == OpConst {
 		sb.WriteString(strconv.FormatUint(val, 16))
-	} else if op == OpVar || op == OpArrVar {
+	} else if op == OpVar || op == OpArrVar || op == OpLut {
 		sb.WriteString(name)
 	}
 	for _, a := range args {
@@ -223,6 +225,28 @@ func (tt *TermTable) Or(a, b *Term) *Term {
 		return a
 	}
 	return tt.mk(OpOr, 0, 0, "", a, b)
+}
+
+// Lut reads a constant table at a symbolic index (the index is known to be in range; an index >= len-1 yields the last entry,
+// exactly as the ite chain it replaces).
+func (tt *TermTable) Lut(idx *Term, w uint8, table []uint64) *Term {
+	if idx.IsConst() {
+		k := idx.Val
+		if k >= uint64(len(table)) {
+			k = uint64(len(table) - 1)
+		}
+		return tt.Const(w, table[k])
+	}
+	var sb strings.Builder
+	for _, v := range table {
+		sb.WriteString(strconv.FormatUint(v, 36))
+		sb.WriteByte(',')
+	}
+	t := tt.mk(OpLut, w, 0, sb.String(), idx)
+	if t.Lut == nil {
+		t.Lut = append([]uint64(nil), table...)
+	}
+	return t
 }
 
 func (tt *TermTable) Ite(c, a, b *Term) *Term {
@@ -682,6 +706,11 @@ func evalFast(t *Term, m Model, budget *int) (uint64, bool) {
 			return 1, true
 		}
 		return evalFast(t.Args[1], m, budget)
+	case OpLut:
+		if a0 >= uint64(len(t.Lut)) {
+			a0 = uint64(len(t.Lut) - 1)
+		}
+		return t.Lut[a0], true
 	case OpIte:
 		if a0 == 1 {
 			return evalFast(t.Args[1], m, budget)
@@ -748,6 +777,12 @@ func eval1(t *Term, m Model, memo map[*Term]uint64) uint64 {
 		if r == 0 {
 			r = eval1(t.Args[1], m, memo)
 		}
+	case OpLut:
+		k := eval1(t.Args[0], m, memo)
+		if k >= uint64(len(t.Lut)) {
+			k = uint64(len(t.Lut) - 1)
+		}
+		r = t.Lut[k]
 	case OpIte:
 		if eval1(t.Args[0], m, memo) == 1 {
 			r = eval1(t.Args[1], m, memo)
@@ -861,6 +896,30 @@ func SMT(t *Term) string {
 			return fmt.Sprintf("((_ sign_extend %d) %s)", x.W-x.Args[0].W, expr(x.Args[0], false))
 		case OpExtract:
 			return fmt.Sprintf("((_ extract %d 0) %s)", x.W-1, expr(x.Args[0], false))
+		case OpLut:
+			ix := expr(x.Args[0], false)
+			var b strings.Builder
+			n := len(x.Lut)
+			// runs of equal values are emitted as one range test to keep the text short
+			closing := 0
+			for k := 0; k < n-1; {
+				j := k
+				for j+1 < n-1 && x.Lut[j+1] == x.Lut[k] {
+					j++
+				}
+				if j == k {
+					fmt.Fprintf(&b, "(ite (= %s %s) %s ", ix, constSMT(x.Args[0].W, uint64(k)), constSMT(x.W, x.Lut[k]))
+				} else {
+					fmt.Fprintf(&b, "(ite (and (bvule %s %s) (bvule %s %s)) %s ", constSMT(x.Args[0].W, uint64(k)), ix, ix, constSMT(x.Args[0].W, uint64(j)), constSMT(x.W, x.Lut[k]))
+				}
+				closing++
+				k = j + 1
+			}
+			b.WriteString(constSMT(x.W, x.Lut[n-1]))
+			for k := 0; k < closing; k++ {
+				b.WriteByte(')')
+			}
+			return b.String()
 		}
 		var b strings.Builder
 		b.WriteByte('(')
